@@ -941,3 +941,65 @@ pub fn begin_run(entropy_seed: u64) {
 pub fn end_run() {
     ACTIVE.store(false, SeqCst);
 }
+
+
+// ---------------------------------------------------------------------------------------
+// environment seam: getenv answers from a per-run overlay first (no setenv, which is not
+// thread-safe against readers on lingering threads)
+// ---------------------------------------------------------------------------------------
+
+struct EnvOverlay {
+    /// name -> value (None = the variable is unset whatever the real environment says)
+    vars: Vec<(std::ffi::CString, Option<std::ffi::CString>)>,
+    /// values handed out earlier stay allocated until the overlay is replaced twice
+    graveyard: Vec<Vec<(std::ffi::CString, Option<std::ffi::CString>)>>,
+}
+static ENV_OVERLAY: std::sync::Mutex<EnvOverlay> = std::sync::Mutex::new(EnvOverlay { vars: Vec::new(), graveyard: Vec::new() });
+static ENV_ON: AtomicBool = AtomicBool::new(false);
+
+/// Replace the overlay (empty = none).
+pub fn env_overlay(vars: Vec<(&str, Option<&str>)>) {
+    let new: Vec<(std::ffi::CString, Option<std::ffi::CString>)> =
+        vars.into_iter().filter_map(|(k, v)| Some((std::ffi::CString::new(k).ok()?, match v { Some(v) => Some(std::ffi::CString::new(v).ok()?), None => None }))).collect();
+    let mut g = ENV_OVERLAY.lock().unwrap_or_else(std::sync::PoisonError::into_inner);
+    ENV_ON.store(!new.is_empty(), SeqCst);
+    let old = std::mem::replace(&mut g.vars, new);
+    g.graveyard.push(old);
+    if g.graveyard.len() > 2 {
+        g.graveyard.remove(0);
+    }
+}
+
+unsafe extern "C" {
+    static environ: *const *const c_char;
+}
+
+#[unsafe(no_mangle)]
+pub unsafe extern "C" fn getenv(name: *const c_char) -> *mut c_char {
+    if name.is_null() {
+        return core::ptr::null_mut();
+    }
+    let want = core::ffi::CStr::from_ptr(name).to_bytes();
+    if ENV_ON.load(Relaxed) {
+        let g = ENV_OVERLAY.lock().unwrap_or_else(std::sync::PoisonError::into_inner);
+        if let Some((_, v)) = g.vars.iter().find(|(k, _)| k.as_bytes() == want) {
+            return match v {
+                Some(v) => v.as_ptr() as *mut c_char,
+                None => core::ptr::null_mut(),
+            };
+        }
+    }
+    // the real environment, read directly (this symbol replaces libc's)
+    let mut p = environ;
+    if p.is_null() {
+        return core::ptr::null_mut();
+    }
+    while !(*p).is_null() {
+        let e = core::ffi::CStr::from_ptr(*p).to_bytes();
+        if e.len() > want.len() && e[want.len()] == b'=' && &e[..want.len()] == want {
+            return (*p).add(want.len() + 1) as *mut c_char;
+        }
+        p = p.add(1);
+    }
+    core::ptr::null_mut()
+}
